@@ -2,6 +2,8 @@ package eng
 
 import (
 	"fmt"
+	"runtime"
+	"runtime/debug"
 	"sort"
 	"strings"
 	"time"
@@ -47,7 +49,9 @@ type Interp struct {
 	nestedDone   map[string]int
 	everRel      map[string][]int // relation layouts populated at some point: layout -> targets
 	shrinkAt     int
-	regAt        []bool // observers registered at the start of the operation
+	vacated      map[string]bool // layouts that lost a row holding non-zero data
+	uninit       bool            // the current op adds components without initialising them
+	regAt        []bool          // observers registered at the start of the operation
 }
 
 // NewInterp creates an interpreter with one backend per policy.
@@ -101,6 +105,7 @@ func (it *Interp) alive(s int) bool {
 func (it *Interp) begin(op *Op) {
 	it.cur = op
 	it.pre = it.M.CloneEnts()
+	it.uninit = (op.Init == InitNilFn || op.P == PUnsafe && op.Vals == nil || op.P == PWorld) && (op.K == "new" || op.K == "newBatch" || op.K == "add" || op.K == "exchange" || op.K == "addBatch" || op.K == "exchangeBatch")
 	it.evAt = nil
 	it.sel = nil
 	it.batch = false
@@ -201,6 +206,8 @@ func (it *Interp) Apply(op *Op) {
 	case "roundtrip":
 		it.opRoundtrip(op)
 		return
+	case "probe":
+		it.opProbe(op)
 	default:
 		panic("unknown op kind " + op.K)
 	}
@@ -582,6 +589,7 @@ func (it *Interp) inBatchCallback(b *Backend, e ecs.Entity) int {
 		fail("callback|"+it.cur.K+"|dead-entity", "%s step %d %v: callback entity %v is not alive", b.Name, it.Step, it.cur, e)
 	}
 	it.nested(b)
+	b.tr("callback %v", e)
 	return s
 }
 
@@ -1508,6 +1516,7 @@ func (it *Interp) opReset(op *Op) {
 	it.M.Ents = nil
 	it.pre = nil
 	it.everRel = nil
+	it.vacated = nil
 	it.M.Open = nil // all queries are finished (the world was unlocked); their handles refer to the old state
 	for _, f := range it.M.Filters {
 		f.Registered = false
@@ -1540,7 +1549,14 @@ func (it *Interp) opReset(op *Op) {
 	}
 }
 
-func (it *Interp) opGC(op *Op) {}
+func (it *Interp) opGC(op *Op) {
+	runtime.GC()
+	if op.Mode == 1 {
+		runtime.GC()
+		debug.FreeOSMemory()
+	}
+	it.count("gc-forced")
+}
 
 // ---------------------------------------------------------------------------------------------
 // nested attempts inside callbacks
@@ -1646,6 +1662,9 @@ func (it *Interp) classifyStep() {
 			continue
 		}
 		k := layoutKey(e)
+		if it.uninit && it.sel[s] && it.vacated[k] && (s >= len(it.pre) || !it.pre[s].Alive || layoutKey(&it.pre[s]) != k) {
+			it.count("uninit-add-into-vacated-table")
+		}
 		now[k]++
 		if comps16(e.Mask) {
 			it.Cnt["has-pointer-component"] = 1
@@ -1660,6 +1679,15 @@ func (it *Interp) classifyStep() {
 		moved := s >= len(it.M.Ents) || !it.M.Ents[s].Alive || layoutKey(&it.M.Ents[s]) != k
 		if moved && cnt[k] >= 2 {
 			it.count("move-from-shared-table")
+		}
+		if moved && p.Val != [comps.N]int64{} {
+			if it.vacated == nil {
+				it.vacated = map[string]bool{}
+			}
+			it.vacated[k] = true
+		}
+		if !moved && s < len(it.M.Ents) {
+			continue
 		}
 		if moved && s < len(it.M.Ents) && it.M.Ents[s].Alive {
 			if cnt[layoutKey(&it.M.Ents[s])] >= 1 {
